@@ -3,6 +3,7 @@ package props
 import (
 	"bytes"
 	"fmt"
+	"net"
 	"os"
 	"path/filepath"
 	"testing"
@@ -109,16 +110,42 @@ func checkPrefix(img *sysImage, off int, via string) (sig, msg string) {
 			_, _, err, pan := safeRead(prefix)
 			ch <- outcome{err, pan}
 		}()
-		select {
-		case o := <-ch:
+		judge := func(o outcome) (string, string) {
 			if o.pan != nil {
 				return "UnsafeReadFrom:panic:" + img.section(off), fmt.Sprintf("%s file of %d bytes cut at %d (%s): panic: %v", img.format, len(img.data), off, img.section(off), o.pan)
 			}
 			if o.err == nil {
 				return "UnsafeReadFrom:prefix-accepted:" + img.section(off), fmt.Sprintf("%s file of %d bytes cut at %d (%s) was loaded without error", img.format, len(img.data), off, img.section(off))
 			}
+			return "", ""
+		}
+		select {
+		case o := <-ch:
+			return judge(o)
 		case <-time.After(limit):
-			return "UnsafeReadFrom:hang:" + img.section(off), fmt.Sprintf("%s file cut at %d: no answer within %v (a full read takes %v)", img.format, off, limit, img.fullRead)
+			// Not a verdict yet: on a loaded machine a goroutine can starve for seconds. Keep waiting for the SAME read and
+			// start a control read of the complete file; a hang is reported only if the read is still silent minutes later
+			// while the control, started after it, came back promptly.
+			ctrl := make(chan time.Duration, 1)
+			go func() {
+				t0 := time.Now()
+				safeRead(img.data)
+				ctrl <- time.Since(t0)
+			}()
+			select {
+			case o := <-ch:
+				return judge(o)
+			case <-time.After(3 * time.Minute):
+				select {
+				case d := <-ctrl:
+					if d < 20*time.Second {
+						return "UnsafeReadFrom:hang:" + img.section(off), fmt.Sprintf("%s file cut at %d: no answer within %v, while a read of the complete file started later took %v", img.format, off, limit+3*time.Minute, d)
+					}
+					return "harness:overloaded", fmt.Sprintf("read of a truncated file silent for %v, control read took %v", limit+3*time.Minute, d)
+				default:
+					return "harness:overloaded", "neither the truncated nor the control read answered within minutes"
+				}
+			}
 		}
 	case via == "file":
 		dir, err := os.MkdirTemp(os.Getenv("VERIF_WORK"), "c15-")
@@ -173,12 +200,54 @@ func checkPrefix(img *sysImage, off int, via string) (sig, msg string) {
 			pa, ma := freeAddr(), freeAddr()
 			args = []string{"start", "--mode", img.mode, "--keys-file", path, "--prover-address", pa, "--metrics-address", ma}
 		}
-		r := runCLI(limit+20*time.Second, stdin, nil, args...)
-		if r.TimedOut {
-			if cmd == "start" {
-				return "cli-start:serves-truncated-file:" + img.section(off), fmt.Sprintf("'start' on a %s file cut at %d (%s) kept running instead of failing", img.format, off, img.section(off))
+		var r cliResult
+		if cmd == "start" {
+			// 'start' must fail; the positive sign of the opposite is a prover address that accepts connections. No time
+			// limit decides: the process is watched until it exits or listens (minutes of patience on a loaded machine).
+			pa := args[len(args)-3]
+			var listening bool
+			r, listening = runCLIUntil(limit+5*time.Minute, stdin, nil, func() bool {
+				c, err := net.DialTimeout("tcp", pa, 200*time.Millisecond)
+				if err != nil {
+					return false
+				}
+				c.Close()
+				return true
+			}, args...)
+			if listening {
+				return "cli-start:serves-truncated-file:" + img.section(off), fmt.Sprintf("'start' on a %s file cut at %d (%s) opened the prover address %s instead of failing", img.format, off, img.section(off), pa)
 			}
-			return "cli-" + cmd + ":hang:" + img.section(off), fmt.Sprintf("'%s' on a file cut at %d did not exit", cmd, off)
+			if r.TimedOut {
+				return "harness:overloaded", fmt.Sprintf("'start' on a truncated file neither exited nor listened within %v", limit+5*time.Minute)
+			}
+		} else {
+			r = runCLI(limit+20*time.Second, stdin, nil, args...)
+			if r.TimedOut {
+				// a hang needs a control: the same command on the COMPLETE file, started afterwards, must come back promptly
+				// while a second, patient run on the truncated file stays silent
+				full := filepath.Join(dir, "full.ps")
+				if err := os.WriteFile(full, img.data, 0o644); err != nil {
+					return "harness:write", err.Error()
+				}
+				cargs := append([]string(nil), args...)
+				for i := range cargs {
+					if cargs[i] == path {
+						cargs[i] = full
+					}
+				}
+				t0 := time.Now()
+				ctl := runCLI(3*time.Minute, stdin, nil, cargs...)
+				ctlTook := time.Since(t0)
+				again := runCLI(limit+3*time.Minute, stdin, nil, args...)
+				cliTimeouts.Store(0)
+				if again.TimedOut && !ctl.TimedOut && ctlTook < 30*time.Second {
+					return "cli-" + cmd + ":hang:" + img.section(off), fmt.Sprintf("'%s' on a file cut at %d did not exit within %v (the same command on the complete file took %v)", cmd, off, limit+3*time.Minute, ctlTook)
+				}
+				if again.TimedOut {
+					return "harness:overloaded", fmt.Sprintf("'%s' timed out on the truncated file; control on the complete file took %v", cmd, ctlTook)
+				}
+				r = again
+			}
 		}
 		if bytes.Contains(r.Stderr, []byte("panic:")) || bytes.Contains(r.Stderr, []byte("goroutine 1 [running]")) {
 			return "cli-" + cmd + ":panic:" + img.section(off), fmt.Sprintf("'%s' on a %s file cut at %d (%s) panicked: %s", cmd, img.format, off, img.section(off), tail(r.Stderr, 300))
